@@ -9,6 +9,7 @@ import (
 	"os"
 	"os/exec"
 	"path/filepath"
+	"runtime"
 	"sync"
 	"testing"
 	"time"
@@ -36,6 +37,7 @@ type Spec struct {
 	Gate     *Gate  `json:"gate,omitempty"`
 	Crash    bool   `json:"crash,omitempty"`    // enumerate crash points in a child process
 	Workers2 int    `json:"workers2,omitempty"` // worker count of the restarted extraction
+	Procs    int    `json:"procs,omitempty"`    // >0: GOMAXPROCS during the case
 }
 
 func specTree(s Spec) h.Tree {
@@ -196,6 +198,13 @@ func check(s Spec) h.Result {
 	os.MkdirAll(out, 0o755) // "extracting into an empty directory"
 	nd, nf, nl := counts(tree)
 	cl := []string{"format:" + s.Format, fmt.Sprintf("workers:%d", s.Workers)}
+	if s.Procs > 0 {
+		defer runtime.GOMAXPROCS(runtime.GOMAXPROCS(s.Procs))
+		cl = append(cl, fmt.Sprintf("gomaxprocs:%d", s.Procs))
+	}
+	if runtime.NumCPU() == 1 {
+		cl = append(cl, "env:one-usable-cpu")
+	}
 	if s.Many > 0 {
 		cl = append(cl, "tree:many-small-files")
 	}
@@ -330,7 +339,7 @@ func genTree(t *rapid.T) h.Tree {
 }
 
 func genWorkers(t *rapid.T) int {
-	return rapid.OneOf(rapid.IntRange(1, 16), rapid.SampledFrom([]int{-1, 1, 2, 3, 8})).Draw(t, "workers")
+	return rapid.OneOf(rapid.IntRange(1, 16), rapid.SampledFrom([]int{-1, -1, 0, 1, 2, 3, 8})).Draw(t, "workers")
 }
 
 var prop = h.Prop[Spec]{
@@ -350,10 +359,33 @@ var prop = h.Prop[Spec]{
 		if s.Format == "zip" && s.Workers >= 2 && rapid.Bool().Draw(t, "gate") {
 			s.Gate = &Gate{Entry: rapid.IntRange(0, 50).Draw(t, "gate-entry"), Need: rapid.IntRange(1, 8).Draw(t, "gate-need")}
 		}
+		if s.Gate == nil && rapid.IntRange(0, 3).Draw(t, "set-gomaxprocs") == 0 {
+			// the gate needs real parallelism to let other entries complete; without it, vary the CPUs in use
+			s.Procs = rapid.SampledFrom([]int{1, 1, 2, 3}).Draw(t, "gomaxprocs")
+		}
 		return s
 	},
 	Check: check,
 }
+
+// the same cases in a process that may use one CPU only (the driver starts this stage under taskset):
+// "all cores but one" (-1) is then zero and must still mean one worker
+var propOneCPU = h.Prop[Spec]{
+	ID: "C19", Name: "onecpu",
+	Gen: func(t *rapid.T) Spec {
+		s := Spec{Format: "zip"}
+		if rapid.Bool().Draw(t, "many") {
+			s.Many = rapid.SampledFrom([]int{12, 40}).Draw(t, "many-files")
+		} else {
+			s.Tree = genTree(t)
+		}
+		s.Workers = rapid.SampledFrom([]int{-1, -1, 0, 1, 2, 4, 16}).Draw(t, "workers")
+		return s
+	},
+	Check: check,
+}
+
+func TestOneCPU(t *testing.T) { h.Run(t, propOneCPU) }
 
 var propCrash = h.Prop[Spec]{
 	ID: "C19", Name: "crash",
@@ -383,5 +415,5 @@ func TestProp(t *testing.T)  { h.Run(t, prop) }
 func TestCrash(t *testing.T) { h.Run(t, propCrash) }
 
 func TestReplay(t *testing.T) {
-	h.ReplayMain(t, map[string]h.Replayer{"roundtrip": h.ReplayerOf(prop), "crash": h.ReplayerOf(propCrash), "race": h.ReplayerOf(prop)})
+	h.ReplayMain(t, map[string]h.Replayer{"roundtrip": h.ReplayerOf(prop), "crash": h.ReplayerOf(propCrash), "race": h.ReplayerOf(prop), "onecpu": h.ReplayerOf(propOneCPU)})
 }
